@@ -517,6 +517,10 @@ func ruleC13ParallelGuard(c *Ctx) {
 		return
 	}
 	c.Fn("isParallelSafe")
+	if why, isWL := parallelSafeWorklist(safe); isWL {
+		c.Check(len(why) == 0, "c13.parallel-guard", "isParallelSafe", c.P.Pos(safe.Pos()), "worklist form: true only when every node taken from the list is a column-to-column comparison, a boolean literal, or an AND/OR whose two operands are put on the list", strings.Join(uniq(why), "; "))
+		return
+	}
 	// the predicate's table: true only on the admitted node kinds
 	paths, err := WalkFunc(safe, WalkCfg{MaxVisits: 1})
 	if err != nil {
@@ -556,8 +560,25 @@ func ruleC13ParallelGuard(c *Ctx) {
 				why = append(why, "a comparison is declared safe although an operand is not a plain column reference")
 			}
 		case "*sqlparser.AndExpr", "*sqlparser.OrExpr":
-			if r.C != nil || !strings.Contains(termStr(r.T), "isParallelSafe(") {
+			rt := termStr(r.T)
+			if r.C != nil || !strings.Contains(rt, "isParallelSafe(") {
 				why = append(why, kind+" is declared safe without examining both operands")
+			} else if !(strings.Contains(rt, ").Left)") && strings.Contains(rt, ").Right)")) {
+				// the result depends on the recursive verdicts: both operands must have been examined on a path that may answer true
+				seenL, seenR := strings.Contains(rt, ").Left)"), strings.Contains(rt, ").Right)")
+				for _, e := range p.Effects {
+					if e.Kind == "call" && e.Callee == "isParallelSafe" && len(e.Args) == 1 {
+						if strings.HasSuffix(e.Args[0].String(), ").Left") {
+							seenL = true
+						}
+						if strings.HasSuffix(e.Args[0].String(), ").Right") {
+							seenR = true
+						}
+					}
+				}
+				if !seenL || !seenR {
+					why = append(why, kind+" is declared safe without examining both operands")
+				}
 			}
 		case "sqlparser.BoolVal":
 		default:
@@ -565,4 +586,186 @@ func ruleC13ParallelGuard(c *Ctx) {
 		}
 	}
 	c.Check(len(why) == 0, "c13.parallel-guard", "isParallelSafe", c.P.Pos(safe.Pos()), "true only for AND/OR trees of column-to-column comparisons and boolean literals", strings.Join(uniq(why), "; "))
+}
+
+
+// parallelSafeWorklist recognises the iterative form of the predicate (an explicit stack instead of recursion) and
+// decides it: a list that starts as [expr]; each round takes one node off the list; the function answers true only
+// when the list is empty, and a round goes on to the next one only for a column-to-column comparison, a boolean
+// literal (list unchanged), or an AND/OR node whose Left and Right are both appended to the list.
+func parallelSafeWorklist(safe *ssa.Function) (why []string, isWorklist bool) {
+	// the loop header: a phi of slice type tested with len(pending) > 0 (or != 0)
+	var header *ssa.BasicBlock
+	var pending *ssa.Phi
+	for _, b := range safe.Blocks {
+		if len(b.Instrs) == 0 {
+			continue
+		}
+		iff, ok := b.Instrs[len(b.Instrs)-1].(*ssa.If)
+		if !ok {
+			continue
+		}
+		cmp, ok := iff.Cond.(*ssa.BinOp)
+		if !ok || !(cmp.Op == token.GTR || cmp.Op == token.NEQ) {
+			continue
+		}
+		if k, isK := constIntOf(cmp.Y); !isK || k != 0 {
+			continue
+		}
+		ln, ok := cmp.X.(*ssa.Call)
+		if !ok {
+			continue
+		}
+		if bi, isB := ln.Call.Value.(*ssa.Builtin); !isB || bi.Name() != "len" {
+			continue
+		}
+		ph, ok := ln.Call.Args[0].(*ssa.Phi)
+		if !ok || ph.Block() != b {
+			continue
+		}
+		if _, isSl := ph.Type().Underlying().(*types.Slice); !isSl {
+			continue
+		}
+		header, pending = b, ph
+	}
+	if header == nil {
+		return nil, false
+	}
+	isWorklist = true
+	body, exit := header.Succs[0], header.Succs[1]
+	// the list starts as [expr]
+	initOK := false
+	for i, e := range pending.Edges {
+		if header.Dominates(header.Preds[i]) {
+			continue
+		}
+		t := NewTB().Of(e)
+		if t.Op == "varargs" && len(t.Args) == 1 && t.Args[0].Op == "param" || strings.Contains(t.String(), "p:"+safe.Params[0].Name()) {
+			initOK = true
+		}
+		if sl, isSl := e.(*ssa.Slice); isSl {
+			if a, isA := sl.X.(*ssa.Alloc); isA {
+				for _, st := range allocElemStores(a) {
+					if st == ssa.Value(safe.Params[0]) {
+						initOK = true
+					}
+				}
+			}
+		}
+	}
+	if !initOK {
+		why = append(why, "the list of pending nodes does not start with the expression itself")
+	}
+	// after the loop: true; inside: never true
+	post, err := WalkFrom(safe, exit, header, WalkCfg{MaxVisits: 1, NoEffects: true})
+	if err != nil {
+		return append(why, err.Error()), true
+	}
+	for _, p := range post {
+		if p.Exit == "return" && len(p.Ret) == 1 && !(p.Ret[0].C != nil) {
+			why = append(why, "the answer after the list is exhausted is not a constant")
+		}
+	}
+	paths, err := WalkFrom(safe, body, header, WalkCfg{StopAt: func(b *ssa.BasicBlock) bool { return b == header }, MaxVisits: 1})
+	if err != nil {
+		return append(why, err.Error()), true
+	}
+	derivesFromPending := func(t *Term) bool {
+		return t != nil && t.Contains(func(x *Term) bool { return x.V == ssa.Value(pending) })
+	}
+	nStop := 0
+	for _, p := range paths {
+		if p.Exit == "return" {
+			if len(p.Ret) == 1 && (p.Ret[0].C == nil || isTrueC(p.Ret[0].C)) {
+				why = append(why, "the predicate can answer true before the list of pending nodes is exhausted")
+			}
+			continue
+		}
+		if p.Exit != "stop" {
+			why = append(why, "a round of the worklist loop could not be followed to its end")
+			continue
+		}
+		nStop++
+		kind := ""
+		var node *Term
+		for _, k := range p.Order {
+			kt := p.KeyTerm[k]
+			if kt != nil && kt.Op == "ext" && kt.Name == "1" && kt.Args[0].Op == "assertok" && kt.Args[0].Args[0].Op == "index" && derivesFromPending(kt.Args[0].Args[0]) {
+				if v, _ := p.Assumed(k); v && kind == "" {
+					kind, node = kt.Args[0].Name, kt.Args[0]
+				}
+			}
+		}
+		next := p.PhiIn[pending].T
+		popped := next != nil && next.Op == "slice" && derivesFromPending(next)
+		switch kind {
+		case "*sqlparser.ComparisonExpr":
+			both := 0
+			for k, v := range p.Asg {
+				kt := p.KeyTerm[k]
+				if kt != nil && kt.Op == "ext" && kt.Name == "1" && kt.Args[0].Op == "assertok" && kt.Args[0].Name == "*sqlparser.ColName" && isTrueC(v) {
+					both++
+				}
+			}
+			if both < 2 {
+				why = append(why, "a comparison is accepted although an operand is not a plain column reference")
+			}
+			if !popped {
+				why = append(why, "after a comparison the list of pending nodes is "+termStr(next)+", not the list without the node")
+			}
+		case "sqlparser.BoolVal":
+			if !popped {
+				why = append(why, "after a boolean literal the list of pending nodes is "+termStr(next)+", not the list without the node")
+			}
+		case "*sqlparser.AndExpr", "*sqlparser.OrExpr":
+			okPush := false
+			if next != nil && next.Op == "call" && next.Name == "builtin:append" && len(next.Args) == 2 && derivesFromPending(next.Args[0]) && next.Args[1].Op == "varargs" {
+				l, r := false, false
+				for _, a := range next.Args[1].Args {
+					ex, isEx := ssa.Value(nil), false
+					if a.Op == "field" && len(a.Args) == 1 && a.Args[0].Op == "ext" {
+						if x, ok := a.Args[0].V.(*ssa.Extract); ok {
+							ex, isEx = x.Tuple, true
+						}
+					}
+					if isEx && ex == node.V {
+						switch a.Name {
+						case "Left":
+							l = true
+						case "Right":
+							r = true
+						}
+					}
+				}
+				okPush = l && r
+			}
+			if !okPush {
+				why = append(why, kind+" is accepted without putting both of its operands on the list of pending nodes (the list becomes "+termStr(next)+")")
+			}
+		default:
+			why = append(why, "a node of kind "+kind+" (or an unknown kind) is accepted: its evaluator may write query state")
+		}
+	}
+	if nStop == 0 {
+		why = append(why, "no round of the worklist loop continues")
+	}
+	return why, true
+}
+
+// allocElemStores: the values stored into the elements of a local array (a slice literal's backing store).
+func allocElemStores(a *ssa.Alloc) []ssa.Value {
+	var out []ssa.Value
+	if a.Referrers() == nil {
+		return nil
+	}
+	for _, r := range *a.Referrers() {
+		if ia, ok := r.(*ssa.IndexAddr); ok && ia.Referrers() != nil {
+			for _, u := range *ia.Referrers() {
+				if st, ok := u.(*ssa.Store); ok && st.Addr == ssa.Value(ia) {
+					out = append(out, st.Val)
+				}
+			}
+		}
+	}
+	return out
 }
